@@ -132,6 +132,24 @@ theorem check_input_data_raises_iff (dc dm bo : Bool) (data : List (DRow F)) :
       exact ⟨v, List.mem_filterMap.mpr ⟨r, hr, hv⟩, by simp [zeroOne, h0, h1]⟩
     simp [hb, this]
 
+/-- **incomplete rows decide nothing of what the generated `check_input_data` returns** (round 4): on any frame (numeric
+    exposure, any outcome values), deleting beforehand the rows missing exposure / another non-outcome column -- or, for the
+    call at hand, all the rows it is documented to drop -- changes neither the retained rows, nor the indicator column, nor
+    `miss_flag`, nor **whether the outcome counts as continuous**, nor whether the binary-exposure guard raises.  (A row that is
+    dropped may hold any outcome value, 2 events or a code such as -1: the analysis stays one of a binary outcome.) -/
+theorem check_input_data_incomplete_rows_irrelevant (dc dm bo : Bool) (data : List (DRow F)) :
+    Gen.check_input_data dc dm bo (data.filter (keptD false)) = Gen.check_input_data dc dm bo data ∧
+    Gen.check_input_data dc dm bo (data.filter (keptD dc)) = Gen.check_input_data dc dm bo data := by
+  have h1 : (data.filter (keptD false)).filter (keptD dc) = data.filter (keptD dc) := by
+    rw [List.filter_filter]; apply List.filter_congr; intro r _
+    cases dc <;> simp [keptD, DRow.complete, DRow.covComplete]
+    intro a b _; exact ⟨a, b⟩
+  have h2 : (data.filter (keptD dc)).filter (keptD dc) = data.filter (keptD dc) := by
+    rw [List.filter_filter]; apply List.filter_congr; intro r _; simp
+  constructor
+  · rw [check_input_data_spec, check_input_data_spec dc dm bo data, h1]
+  · rw [check_input_data_spec, check_input_data_spec dc dm bo data, h2]
+
 /-! ### on the rows of the C10 model -/
 
 theorem keptD_toD (dc : Bool) (r : Raw F) : keptD dc r.toD = kept dc r := by
@@ -315,6 +333,17 @@ example : (Gen.check_input_data false true true
       [(⟨0, some 1, some 0, some 1, 1⟩ : DRow ℚ), ⟨1, some 2, some 0, some 0, 1⟩]).toOption.map (fun o => o.1.map (·.i))
         = some [0, 1] := by
   refine ⟨?_, ?_, ?_⟩ <;> decide +kernel
+
+/-- `check_input_data_incomplete_rows_irrelevant` has no hypotheses; what it says on a small frame: a row dropped for its
+    missing exposure carries the outcome value 2 and the outcome still counts as binary (`continuous = false`); the same
+    value on a retained row makes it continuous -/
+example : (Gen.check_input_data false true true
+      [(⟨0, some 1, some 0, some 1, 1⟩ : DRow ℚ), ⟨1, none, some 0, some 2, 1⟩]).toOption.map (fun o => (o.1.map (·.i), o.2.2.2))
+        = some ([0], false) ∧
+    (Gen.check_input_data false true true
+      [(⟨0, some 1, some 0, some 1, 1⟩ : DRow ℚ), ⟨1, some 0, some 0, some 2, 1⟩]).toOption.map (fun o => (o.1.map (·.i), o.2.2.2))
+        = some ([0, 1], true) := by
+  constructor <;> decide +kernel
 
 example : exRaw.length = 10 ∧ (deleteIncomplete exRaw).length = 7 ∧ (completeCases exRaw).length = 6 := by decide
 
